@@ -27,7 +27,7 @@ ASSUMPTIONS = [
 ]
 
 # per-branch menu: (x, fail, caught, nocache)
-BRANCH = [(0, 0, 0, 0), (1, 0, 0, 0), (1, 1, 1, 0), (2, 1, 0, 0), (0, 0, 0, 1)]
+BRANCH = [(0, 0, 0, 0), (1, 0, 0, 0), (1, 1, 1, 0), (2, 1, 0, 0), (0, 0, 0, 1), (5, 0, 0, 3), (1, 0, 0, 2), (4, 1, 1, 4)]
 NQ = 4  # the first NQ menu entries are used by the quick tier
 ASSUMPTIONS[1] = ASSUMPTIONS[1] % (BRANCH,)
 
@@ -44,6 +44,7 @@ def pick_case(n, first, menu, fixed=None):
 
 
 def symbolic_limits(form):
+    """-> (configured limits, leaf demand, limit, count); the hog leaf (mode 3) demands the whole limit."""
     if form == 2:
         return {}, ["r"], None, None
     limit = fresh(int, "limit")
@@ -54,6 +55,10 @@ def symbolic_limits(form):
     assume(1 <= count)
     assume(count <= limit)
     return {"r": limit}, {"r": count}, limit, count
+
+
+def _hog(limits):
+    return {"r": limits["r"]} if "r" in limits else ["r"]
 
 
 def check_c08(lab, outcome):
@@ -79,8 +84,8 @@ def c08_limits(k: int) -> bool:
         limits, leaf_limits, _, _ = symbolic_limits(form)
 
         def run():
-            lab, outcome, salt = P.run_case(spec, choose, limits, leaf_limits, mid_limits, early=bool(early), symbolic=True,
-                                            with_bad=with_bad)
+            lab, outcome, salt = P.run_case(spec, choose, limits, leaf_limits, mid_limits, early=early, symbolic=True,
+                                            with_bad=int(with_bad), hog_limits=_hog(limits))
             return check_c08(lab, outcome) is None
         return native(run)
     return guard(body, k=k)
@@ -89,16 +94,21 @@ def c08_limits(k: int) -> bool:
 _NB = len(BRANCH)
 # slice = (branches, first branch, early mode, limit form, mid demands too, unknown-executor branch, menu size)
 DUP4 = [(0, 0, 0, 0), (1, 0, 0, 0), (1, 0, 0, 0), (2, 0, 0, 0)]  # four leaves, two of them the same call
+ABC3 = [(0, 0, 0, 0), (1, 0, 0, 0), (2, 0, 0, 0)]  # three distinct leaves (used with early mode 2)
+HET4 = [(0, 0, 0, 0), (1, 0, 0, 0), (5, 0, 0, 3), (2, 0, 0, 0)]  # two small jobs, one that needs the whole limit, a third small one
+ALLFAIL3 = [(0, 1, 0, 0), (1, 1, 0, 0), (2, 1, 0, 0)]  # three failing leaves (used under catch_all)
 FAIL4 = [(0, 0, 0, 0), (1, 1, 1, 0), (1, 0, 0, 0), (2, 1, 1, 0)]
 _Q = [(3, f, 0, 0, m, 0, NQ, None) for f in range(NQ) for m in (0, 1)] + [(2, 0, 1, 0, 1, 0, NQ, [BRANCH[1], BRANCH[1]]), (2, 0, 1, 0, 1, 0, NQ, [BRANCH[2], BRANCH[0]])] \
-    + [(2, 1, 0, 2, 1, 1, NQ, None), (2, 2, 0, 1, 0, 1, NQ, None), (4, 0, 0, 0, 0, 0, NQ, DUP4), (4, 0, 0, 0, 1, 0, NQ, FAIL4)]
+    + [(2, 1, 0, 2, 1, 1, NQ, None), (2, 2, 0, 1, 0, 1, NQ, None), (4, 0, 0, 0, 0, 0, NQ, DUP4), (4, 0, 0, 0, 1, 0, NQ, FAIL4),
+       (3, 0, 2, 1, 0, 0, NQ, ABC3), (4, 0, 0, 0, 0, 0, NQ, HET4), (3, 0, 0, 0, 0, 2, NQ, ALLFAIL3), (3, 0, 0, 0, 0, 2, NQ, None)]
 _T = [(3, f, 0, form, m, b, _NB, None) for f in range(_NB) for form in (0, 1, 2) for m in (0, 1) for b in (0, 1)] \
     + [(3, f, 1, 0, m, 0, NQ, None) for f in range(NQ) for m in (0, 1)] + [(4, f, 0, 0, 1, 0, NQ, None) for f in range(NQ)] \
-    + [(4, 0, 1, 0, 0, 0, NQ, DUP4), (4, 0, 1, 0, 1, 0, NQ, FAIL4)]
+    + [(4, 0, 1, 0, 0, 0, NQ, DUP4), (4, 0, 1, 0, 1, 0, NQ, FAIL4), (3, 0, 2, 0, 0, 0, NQ, ABC3), (3, 0, 2, 0, 1, 0, NQ, ABC3),
+       (4, 0, 0, 0, 1, 0, NQ, HET4), (4, 0, 1, 0, 0, 0, NQ, HET4)] + [(3, f, 0, 0, m, 2, _NB, None) for f in range(_NB) for m in (0, 1)]
 CONDITIONS = [
-    Condition(c08_limits, slices=_Q, thorough_slices=_T, timeout=200, thorough_timeout=2400,
+    Condition(c08_limits, slices=_Q, thorough_slices=_T, timeout=300, thorough_timeout=2400,
               bounds="slice = (branches, first branch, early-completion mode, limit form 0 dict demand/1 list demand/2 "
-                     "unconfigured limit, mid task demands 'r' too, a branch with an unknown executor, size of the branch menu, fully fixed branch list or None); in late mode the trivial "
+                     "unconfigured limit, mid task demands 'r' too, extra template 0 none / 1 a branch with an unknown executor / 2 all branches under one catch_all, size of the branch menu, fully fixed branch list or None); in late mode the trivial "
                      "mid / main / recover jobs complete first in submission order and only leaf completions are scheduled; "
                      "remaining branches and the completion schedule chosen by the solver; limit and count symbolic integers"),
 ]
@@ -116,7 +126,7 @@ def replay_case(extra):
     n, first, early, form, mid, with_bad, menu, fixed = extra["slice"]
     spec = [tuple(b) for b in fixed] if fixed is not None else [BRANCH[first]] + [BRANCH[nxt()] for _ in range(n - 1)]
     mid_limits = ["r"] if mid else None
-    with_bad = bool(with_bad)
+    with_bad = int(with_bad)
     if form == 2:
         limits, leaf_limits = {}, ["r"]
     elif form == 1:
@@ -125,8 +135,8 @@ def replay_case(extra):
         limit = nxt()
         limits, leaf_limits = {"r": limit}, {"r": nxt()}
     pick = lambda m, label: min(nxt(), m - 1) if pos[0] < len(items) else 0
-    lab, outcome, salt = P.run_case(spec, pick, limits, leaf_limits, mid_limits, early=bool(early), symbolic=False,
-                                    with_bad=with_bad, backend=None)
+    lab, outcome, salt = P.run_case(spec, pick, limits, leaf_limits, mid_limits, early=early, symbolic=False,
+                                    with_bad=with_bad, backend=None, hog_limits=_hog(limits))
     desc = "branches %r, limits %r, leaf demand %r, mid demand %r, unknown-executor branch %s, %s completions" % (
         spec, limits, leaf_limits, mid_limits, with_bad, "early" if early else "late")
     return lab, outcome, desc, spec, with_bad
